@@ -44,6 +44,18 @@ CLAIMED = {
               "doubles (stencils exhaustively, integrate on seeded grids/signals), plus oracles on the code."),
         design="6/C20", technique="Lean 4 proof (kernel-evaluated rational table + induction over the loop) + exact-rational correspondence",
         note=PROOF_NOTE + " Not shown: float rounding (tolerance 1e-10 of the natural scale), orders above 8."),
+    "C17": dict(
+        text=("Lean 4 theorems over an integer model of tools/time.py (instants = microseconds since the epoch): the "
+              "Gregorian calendar conversion round-trips in both directions for ALL years (two kernel-evaluated tables over "
+              "one 400-year era, 146097 days each, plus era periodicity), hence ISO fields -> instant -> fields and "
+              "instant -> fields -> instant are identities (microseconds kept); an aware time at any offset denotes "
+              "local - offset; naive = UTC; datetime64 round trip = floor to the second; None -> None; sequences map; "
+              "packed hhmmss/hhmm/hh and yyyymmdd/yymmdd decode correctly for every valid integer. Two ties to the code: "
+              "(1) the packed-integer functions are machine-translated from the Python source on every run "
+              "(tools/py2lean.py) and the theorems are re-checked on the translation; (2) correspondence of every "
+              "representation of seeded instants 1970..2100 x offsets with the model."),
+        design="6/C17", technique="Lean 4 proof (kernel tables + omega) on a model partly regenerated from source + correspondence",
+        note=PROOF_NOTE + " Not shown: Python's string<->field parsing/formatting (exercised only), float rounding of non-dyadic epoch seconds."),
 }
 
 NOT_YET = "check not built yet in this session; see DESIGN.md section 9 (build order)"
